@@ -951,7 +951,8 @@ class Rechunk(ArrayExpr):
 
         transpose = self.array
         axes = transpose.axes
-        chunks = self._chunks
+        # the settled target (balance already applied), not the raw operand
+        chunks = self.chunks
 
         if isinstance(chunks, tuple):
             # Map output chunks back through transpose axes to get input chunks
@@ -981,7 +982,8 @@ class Rechunk(ArrayExpr):
 
         elemwise = self.array
         out_ind = elemwise.out_ind
-        chunks = self._chunks
+        # the settled target (balance already applied), not the raw operand
+        chunks = self.chunks
 
         # Convert dict chunks to tuple for positional indexing
         if isinstance(chunks, dict):
